@@ -138,6 +138,11 @@ def run(ctx):
             cap = rng.choice([None, 'cap'])
             compare('teehtml', T, lambda p: etl.teehtml(T, p, encoding='utf-8', caption=cap),
                     lambda p: etl.tohtml(T, p, encoding='utf-8', caption=cap), dict(caption=cap), nt)
+            if ci % 25 == 9:
+                # nothing at all, not even a header row: tohtml still writes the table frame (and caption); so must a consumed teehtml
+                E = rng.choice([[], ()])
+                compare('teehtml', E, lambda p: etl.teehtml(E, p, encoding='utf-8', caption=cap),
+                        lambda p: etl.tohtml(E, p, encoding='utf-8', caption=cap), dict(caption=cap, no_header_row=True), False)
             # the render is per row: the file is the concatenation of single-row files (model validation)
             if nt:
                 try:
